@@ -263,4 +263,62 @@ Section DelayProofs.
   Theorem dreach_DInv progs s : dreach (dinit progs) s -> DInv s.
   Proof. intro R. induction R; eauto using DInv_init, DInv_step. Qed.
 
+
+  (** ---- the statements ---- *)
+  Lemma holder_unique s t u : DInv s -> qlock s = Some t -> in_q (d_pc (dthr s u)) = true -> u = t.
+  Proof. intros I Hq Hu. apply (di_q s I u) in Hu. congruence. Qed.
+
+  (** a body run begins only when no run is in progress and none has ever returned *)
+  Theorem delay_once progs s t s' :
+    dreach (dinit progs) s -> dstep t s = Some s' -> dcur mode (dthr s t) = DBodyB ->
+    inbody s = 0 /\ rets s = [].
+  Proof.
+    intros R St Hc. pose proof (dreach_DInv progs s R) as I.
+    assert (Hpc : d_pc (dthr s t) = DBodyB).
+    { unfold dcur in Hc. destruct (d_pc (dthr s t)) eqn:Hp; try discriminate; auto.
+      destruct (d_ops (dthr s t)) as [|[] ?]; try discriminate.
+      unfold dentry in Hc. rewrite Hlocked in Hc. discriminate. }
+    assert (Hq : qlock s = Some t) by (apply (di_q s I t); rewrite Hpc; reflexivity).
+    pose proof (di_h s I t) as L. unfold holder_ok in L. rewrite Hpc in L. destruct L as [_ Hcell].
+    split.
+    - destruct (di_body s I) as [B|(B1 & B2 & u & Bu)]; [exact B|].
+      assert (u = t) by (eapply holder_unique; eauto; rewrite Bu; reflexivity). subst. congruence.
+    - destruct (di_rets s I Hcell) as [Rr|(u & Wu)]; [exact Rr|].
+      assert (u = t).
+      { eapply holder_unique; eauto. destruct (d_pc (dthr s u)); simpl in *; try discriminate; reflexivity. }
+      subst. rewrite Hpc in Wu. discriminate.
+  Qed.
+
+  Theorem delay_log_once progs s :
+    dreach (dinit progs) s ->
+    once_log (map snd (rev (blog s))) = true /\ inbody s <= 1 /\ length (rets s) <= 1.
+  Proof.
+    intro R. pose proof (dreach_DInv progs s R) as I. split; [|split].
+    - unfold once_log. rewrite (di_log s I). unfold bst. destruct (rets s), (inbody s); reflexivity.
+    - destruct (di_body s I) as [B|(B1 & _)]; lia.
+    - destruct (dcell s) as [v|] eqn:Hc.
+      + rewrite (di_cell s I v Hc). simpl. lia.
+      + destruct (di_rets s I Hc) as [Rr|(u & Wu)]; [rewrite Rr; simpl; lia|].
+        pose proof (di_h s I u) as L. unfold holder_ok in L.
+        destruct (d_pc (dthr s u)); simpl in Wu; try discriminate;
+          destruct L as (_ & v & _ & Hr & _); rewrite Hr; simpl; lia.
+  Qed.
+
+  (** every deref that returned a value returned the value of the one run that returned *)
+  Theorem delay_value_stable progs s t o v :
+    dreach (dinit progs) s -> In (o, DVal v) (d_done (dthr s t)) -> rets s = [v].
+  Proof. intros R. apply (di_done s (dreach_DInv progs s R)). Qed.
+
+  Corollary delay_derefs_agree progs s t1 o1 v1 t2 o2 v2 :
+    dreach (dinit progs) s -> In (o1, DVal v1) (d_done (dthr s t1)) -> In (o2, DVal v2) (d_done (dthr s t2)) ->
+    v1 = v2.
+  Proof.
+    intros R H1 H2. pose proof (delay_value_stable progs s t1 o1 v1 R H1).
+    pose proof (delay_value_stable progs s t2 o2 v2 R H2). congruence.
+  Qed.
+
+  (** realized? observations, in the order they were made, never go back to false *)
+  Theorem delay_realized_monotone progs s :
+    dreach (dinit progs) s -> mono_bools (rev (rlog s)) = true.
+  Proof. intro R. apply (di_real s (dreach_DInv progs s R)). Qed.
 End DelayProofs.
